@@ -395,7 +395,11 @@ func (s *Sched) selectOp(in *Interp, fr *Frame, x *ssa.Select) Value {
 	r := readyIdx()
 	idx := r[0]
 	if len(r) > 1 && s.p.selectChoice {
-		idx = r[s.p.choice("select", len(r))]
+		k := s.p.choice("select", len(r))
+		idx = r[k]
+		// which ready case a select takes is the runtime's (random) choice: part of the schedule
+		w, _ := in.whereNow()
+		s.taken = append(s.taken, fmt.Sprintf("%s: select at %s takes ready case %d of %d", in.g.name, w, k+1, len(r)))
 	}
 	c := states[idx]
 	if c.send {
